@@ -106,19 +106,31 @@ def const_writes(ctx, s, fn, out, base=0, depth=0):
     return res
 
 
-def covered(ctx, s, fn, writes, header, required_sites=None):
+def covered(ctx, s, fn, writes, header, required_sites=None, flag_local=None):
     """bytes of [0,header) written on every path to every Ok return"""
     an = ctx.E.an(fn)
     cfg = an.cfg
     oks = [n for n, k, v in s.return_kinds(fn) if k == "ok"]
+    # Ok returns that lie behind the completeness test of the member flags (flags == constant): only for those does
+    # "every site that sets a required flag is behind the write" stand in for "the write is on the path"
+    behind_test = set()
+    if required_sites:
+        for r in oks:
+            for f in ctx.E.facts(fn, r):
+                if f[0] == "eqc" and isinstance(f[1], tuple) and contains_value(
+                        f[1], lambda y: y[0] == "phi" and (flag_local is None or y[2] == flag_local or y[2] == ("local", flag_local))):
+                    mask = f[2][1] if isinstance(f[2], tuple) else f[2]
+                    if isinstance(mask, int) and all((mask & c) == c for c in required_sites):
+                        behind_test.add(r)
     # elementary intervals
     cuts = sorted({0, header} | {lo for lo, hi, n in writes if 0 <= lo <= header} | {hi for lo, hi, n in writes if 0 <= hi <= header})
     missing = []
     for a, b in zip(cuts, cuts[1:]):
         W = [n for lo, hi, nodes in writes if lo <= a and b <= hi for n in nodes]
         reach = s.reach(fn, [cfg.entry], avoid=W)
-        ok = bool(oks) and not any(r in reach for r in oks)
-        if not ok and required_sites:
+        open_oks = [r for r in oks if r in reach]
+        ok = bool(oks) and not open_oks
+        if not ok and required_sites and oks and all(r in behind_test for r in open_oks):
             # a flag that success requires: every site setting it is dominated by a write of these bytes
             for flag, sites in required_sites.items():
                 if sites and all(any(cfg.dominates(n, site) for n in W) for site in sites):
@@ -191,14 +203,32 @@ def reader_width_agreement(ctx, s, fns, what="event", spec=None):
         vals = list(an.stmt_val.values()) + [i.get("value") for i in an.term.values() if i.get("value")] + \
             [a for i in an.term.values() if i.get("args") for a in i["args"]]
         seen = set()
+        # bytes gathered one by one into an array ([b[o], b[o + 1]] for from_ne_bytes) are one read of the array's width
+        assembled = []
         for v in vals:
+            if v is None:
+                continue
+            for arr in find_values(v, lambda y: y[0] == "agg" and y[1] == "array" and len(y[2]) >= 2 and
+                                   all(e[0] == "elem" and e[1] == y[2][0][1] for e in y[2])):
+                els = arr[2]
+                if all(P.lin(("bin", "Sub", e[2], els[0][2])) == (k_, ()) for k_, e in enumerate(els)):
+                    for e in els:
+                        seen.add(strip_sites(e))
+                    x = ("slice", els[0][1], els[0][2], ("bin", "Add", els[0][2], ("const", len(els), "usize")))
+                    if strip_sites(x) not in seen:
+                        seen.add(strip_sites(x))
+                        assembled.append(x)
+        for v in vals + assembled:
             if v is None:
                 continue
             for x0 in find_values(v, lambda y: y[0] in ("slice", "elem")):
                 k = strip_sites(x0)
-                if k in seen:
+                if k in seen and x0 not in assembled:
                     continue
                 seen.add(k)
+                if contains_value(x0[1], lambda y: y[0] == "call" and y[1].rsplit("::", 1)[-1] not in (
+                        "deref", "deref_mut", "as_bytes", "as_ref", "as_mut", "as_slice", "borrow")):
+                    continue            # a piece handed out by an iterator or a helper: its positions are not the packed bytes'
                 if x0[0] == "elem":
                     # a single byte read at an index: a read of width 1 at that position
                     x = ("slice", x0[1], x0[2], ("bin", "Add", x0[2], ("const", 1, "usize")))
